@@ -30,6 +30,8 @@ def findings_table():
 
 FIRST_MISSED = {
     "C01-3": "bookkeeping is now queried after every feed (history of look-ups and feeds)",
+    "C01-6": "every chunk is handed over in an array of its own that is overwritten right after the call (reused stream buffer)",
+    "C06-5": "new sub-check `integer_inputs` (int64/int32 arrays, integer Series, lists, python ints, with and without zeros == float-typed call)",
     "C02-1": "signal kind `decimal` (values single precision cannot represent, with exact ties)",
     "C02-3": "operator `near_plateau` (neighbour 1 ulp / 1e-12 / 1e-9 away: no plateau)",
     "C03-3": "new sub-check `nan_chunked` (NaN clause combined with chunked feeding)",
